@@ -77,6 +77,7 @@ func idleFitReq(c *Ctx, isTA *ssa.Function, flows []*flagFlow) Req {
 func runC01(c *Ctx) {
 	runC01PodRequest(c)
 	runC01Snapshot(c)
+	runC01ScalarComparedEveryTime(c)
 	runC01NewGroup(c)
 	runC01MaxOrientation(c)
 	borrow(c, "O10", "C14", "O5", "NodeInfo.{Idle,Used,Releasing}", "the fit test reads NodeInfo.Idle: a function outside the accounting API that changes it (an explanatory helper adding to an alias of Idle) lets later pods of the cycle fit capacity that does not exist")
